@@ -30,8 +30,8 @@ from .replay import leaves_of as _leaves_of_scalar, Leaf, SMALL
 
 NP_DTYPES = {"f16": "float16", "f32": "float32", "f64": "float64", "u8": "uint8", "i16": "int16", "i32": "int32"}
 ARRAY_SAMPLES = {
-    "f16": [float("nan"), 0.0, 1.0, -2.5, 3.25, 100.0, 0.5],
-    "f32": [float("nan"), 0.0, 1.0, -2.5, 3.25, 100.0, 0.5, -0.0],
+    "f16": [float("nan"), 0.0, 1.0, -2.5, 3.25, 100.0, 0.5, float("inf")],
+    "f32": [float("nan"), 0.0, 1.0, -2.5, 3.25, 100.0, 0.5, -0.0, float("inf"), float("-inf")],
     "f64": [float("nan"), 0.0, 1.0, -2.5, 3.25, 1e6, 0.5],
     "u8": [0, 0, 1, 7, 128, 255], "i16": [0, 0, 1, -1, -32768, 32767, 300], "i32": [0, 0, 1, -1, 40000, -70000, 5],
 }
@@ -208,10 +208,13 @@ def _array_eq(sym, nat):
                 return None
             if isinstance(v, float) and math.isnan(v):
                 parts.append(e.nan if not isinstance(e.nan, bool) else e.nan)
-            else:
-                if isinstance(v, float) and math.isinf(v):
-                    return None
+            elif isinstance(v, float) and math.isinf(v):
+                # +-inf: a defined, non-finite element (the sign is not modelled)
                 parts.append(z3.Not(e.nan) if not isinstance(e.nan, bool) else (not e.nan))
+                parts.append(e.inf if not isinstance(e.inf, bool) else e.inf)
+            else:
+                parts.append(z3.Not(e.nan) if not isinstance(e.nan, bool) else (not e.nan))
+                parts.append(z3.Not(e.inf) if not isinstance(e.inf, bool) else (not e.inf))
                 # reals in the engine, IEEE floats natively: equal up to the rounding of the native dtype
                 fv = fractions.Fraction(v)
                 tol = {"float16": fractions.Fraction(1, 400), "float32": fractions.Fraction(1, 10 ** 6)}.get(
